@@ -114,3 +114,51 @@ def run(F, ctx):
     if not ok:
         ctx.violation("%s:R-C24-c:no-tombstone-filter" % REBUILD_HNSW, "the graph rebuild does not filter stored vectors by the tombstone set: deleted vectors re-enter the graph", rb.where())
     ctx.end_rule()
+
+    # ---- d
+    ctx.rule("R-C24-d", "the graph's vectors and its index->id table are both built from the tombstone-filtered vector list", floor=2)
+    vreads = [c for c in rb.normal_calls() if re.search(r"RwLock::<.*Vec<\(usize, std::vec::Vec<f32>\)>>::read$", c.static_args or "")]
+    if not vreads:
+        raise CheckError("rebuild_hnsw no longer reads the stored vector list (anchor moved)")
+    seeds = {c.dst["l"] for c in vreads}
+    filt_closures = {c.fn.name for c in filt}
+    fcalls = []
+    for c in rb.normal_calls():
+        if re.search(r"Iterator>::(filter|filter_map)::<", c.static_args or ""):
+            for a in c.args[1:]:
+                al = op_local(a)
+                for i in range(rb.n):
+                    for st in rb.stmts(i):
+                        rv = st["r"]
+                        if st["d"]["l"] == al and rv.get("k") == "agg" and rv.get("ak") == "closure" and rv["def"] in filt_closures:
+                            fcalls.append(c)
+    if not fcalls:
+        raise CheckError("rebuild_hnsw: no Iterator::filter whose closure tests the tombstone set")
+    pats = [re.compile(re.escape(c.static_args)) for c in fcalls]
+    all_d = rb.derive(seeds, through_calls=True)
+    cut_d = rb.derive(seeds, through_calls=True, stop_calls=pats)
+    n_ops = 0
+    for i in sorted(rb.live_blocks()):
+        for st in rb.stmts(i):
+            rv = st["r"]
+            if rv.get("k") == "agg" and rv.get("adt") == "hnsw_index::HnswInnerOwned":
+                for fd, o in zip(rv["fields"], rv["ops"]):
+                    if fd not in ("_storage", "index_to_tuple_id"):
+                        continue
+                    n_ops += 1
+                    ol = op_local(o)
+                    ok = ol in all_d and ol not in cut_d
+                    ctx.site("HnswInnerOwned.%s comes from the filtered list only" % fd, rb.where(i), ok=ok)
+                    if not ok:
+                        ctx.violation("%s:R-C24-d:%s-bypasses-tombstone-filter" % (REBUILD_HNSW, fd), "HnswInnerOwned.%s is (also) built from the unfiltered stored vectors: graph index i then names a different vector than the i-th entry of the id table, so search returns ids with another vector's distance" % fd, rb.where(i))
+    for c in rb.normal_calls():
+        if re.match(r"^hnsw_rs::hnsw::Hnsw::<.*>::(insert|parallel_insert)", c.static_args or ""):
+            ol = op_local(c.args[1])
+            ok = ol in all_d and ol not in cut_d
+            n_ops += 1
+            ctx.site("vectors inserted into the graph come from the filtered list only", c.where(), ok=ok)
+            if not ok:
+                ctx.violation("%s:R-C24-d:graph-insert-bypasses-tombstone-filter" % REBUILD_HNSW, "rebuild_hnsw inserts vectors into the graph that do not come through the tombstone filter", c.where())
+    if n_ops < 2:
+        raise CheckError("rebuild_hnsw: HnswInnerOwned construction not found")
+    ctx.end_rule()
